@@ -101,6 +101,7 @@ Section TreeReduce.
       change (tree_reduce (S n) op l)
         with (op (tree_reduce n op (firstn (Nat.div (List.length l) 2) l))
                  (tree_reduce n op (skipn (Nat.div (List.length l) 2) l))).
+      clearbody l.
       set (h := Nat.div (List.length l) 2).
       assert (Hh1 : (1 <= h)%nat) by (unfold h; apply Nat.div_le_lower_bound; lia).
       assert (Hh2 : (h < List.length l)%nat) by (unfold h; apply Nat.div_lt; lia).
@@ -197,7 +198,7 @@ Proof.
     rewrite rtl_all_sem. apply row_lits_sem. auto.
   - rewrite rtl_any_absent, existsb_map.
     rewrite (existsb_ext_in _ (fun _ => false)).
-    + induction rows; simpl; auto.
+    + clear Hw. induction rows as [|a l IH]; simpl; auto.
     + intros r Hr. rewrite rtl_all_absent. apply row_lits_absent. auto.
 Qed.
 
@@ -343,6 +344,14 @@ Proof.
   rewrite (nth_error_nth' ins o) by lia. reflexivity.
 Qed.
 
+Lemma last_opt_app_one {A} (l : list A) (x : A) : last_opt (l ++ [x]) = Some x.
+Proof.
+  unfold last_opt. destruct (l ++ [x])%list as [|a l0] eqn:E.
+  - destruct l; discriminate.
+  - f_equal. assert (H : last (a :: l0) a = x) by (rewrite <- E; apply last_last).
+    destruct l0; simpl in *; auto.
+Qed.
+
 (* THE COVER THEOREM *)
 Lemma cover_correct : forall sigs rows, cover_wf sigs rows = true ->
   exists e, extract_cover sigs rows = Some (last sigs (L 0), e)
@@ -392,18 +401,14 @@ Proof.
       unfold rows_wfb in Hrows. rewrite En in Hrows. simpl in Hrows.
       apply andb_prop in Hrows. destruct Hrows as [_ Hlen]. apply Nat.leb_le in Hlen.
       destruct rows as [|r [|r2 rows]]; simpl in Hlen; try lia.
-      * simpl. destruct ins; [|simpl in En; lia]. simpl.
+      * simpl. unfold n in En. destruct ins; [|simpl in En; lia]. simpl.
         eexists. split; [reflexivity|]. intro rho. reflexivity.
       * assert (r = []).
         { assert (List.length r = n) by (apply Hw; left; reflexivity). destruct r; simpl in *; [auto|lia]. }
         subst r. simpl in Hf. exfalso. apply cover_const1_special. exact Hf.
     + apply Nat.eqb_neq in En.
       rewrite (pair_tokens_rows n) by (auto; apply rows_wfb_width; exact Hrows).
-      assert (Hlast : last_opt (ins ++ [o]) = Some o).
-      { unfold last_opt. destruct (ins ++ [o])%list eqn:E.
-        - destruct ins; discriminate.
-        - rewrite <- E. f_equal.
-          change (last l s) with (last (s :: l) s). rewrite <- E. apply last_last. }
+      assert (Hlast : last_opt (ins ++ [o]) = Some o) by apply last_opt_app_one.
       rewrite Hlast.
       destruct (generic_cover_sem (fun _ => false) ins o rows (rows_wfb_width _ _ Hrows)) as [_ Ha].
       rewrite Ha. eexists. split; [reflexivity|].
